@@ -2,6 +2,7 @@ package xarun
 
 import (
 	"context"
+	"encoding/hex"
 	gosql "database/sql"
 	"errors"
 	"fmt"
@@ -55,12 +56,14 @@ type Scenario struct {
 	Faults   []Fault  `json:"faults"`
 	Ops      []Op     `json:"ops"`
 	Stream   string   `json:"stream"` // clean | malformed | finding:<pred>
+	XidsHex  []string `json:"xids_hex"` // authoritative when present (replays)
 }
 
 type OpResult struct {
 	Class  string `json:"class"`            // ok | err | panic | diverged | skipped
 	Status int    `json:"status,omitempty"` // p2: branch status returned by the resource manager
 	Detail string `json:"detail,omitempty"`
+	Good   bool   `json:"good,omitempty"` // p2: returned without error and with the Committed / Rollbacked status
 	ID     string `json:"id,omitempty"` // auto: identifier of the branch this op created ("" if none)
 }
 
@@ -156,6 +159,17 @@ func gctx(xid string) context.Context {
 }
 
 func runScenario(sc Scenario) Result {
+	if len(sc.XidsHex) > 0 {
+		sc.Xids = nil
+		for _, h := range sc.XidsHex {
+			b, _ := hex.DecodeString(h)
+			sc.Xids = append(sc.Xids, string(b))
+		}
+	} else {
+		for _, x := range sc.Xids {
+			sc.XidsHex = append(sc.XidsHex, hex.EncodeToString([]byte(x)))
+		}
+	}
 	dsnSeq++
 	dsn := fmt.Sprintf("u:p@tcp(127.0.0.1:3306)/d%d_%d?interpolateParams=true", os.Getpid(), dsnSeq)
 	resID := dsn[:len(dsn)-len("?interpolateParams=true")]
@@ -192,6 +206,11 @@ func runScenario(sc Scenario) Result {
 			var conn *gosql.Conn
 			if op.K == "reuse" {
 				conn = opConn[op.Target]
+				if conn != nil && op.Commit {
+					// variant: the connection goes back to the pool and is taken out again
+					conn.Close()
+					conn = nil
+				}
 			}
 			if conn == nil {
 				c, cerr := db.Conn(context.Background())
@@ -222,6 +241,7 @@ func runScenario(sc Scenario) Result {
 			}
 		case "explicit":
 			ctx := gctx(sc.Xids[op.G])
+			beforeX := len(w.snapshot())
 			cl, det := hutil.Guard(5*time.Second, func() error {
 				tx, e := db.BeginTx(ctx, nil)
 				if e != nil {
@@ -239,6 +259,11 @@ func runScenario(sc Scenario) Result {
 				return tx.Rollback()
 			})
 			r = OpResult{Class: cl, Detail: clip(det)}
+			for _, ev := range w.snapshot()[beforeX:] {
+				if ev.K == "sql" && ev.Cmd == "START" {
+					r.ID = ev.ID
+				}
+			}
 		case "p2":
 			id, ok := opID[op.Target]
 			if !ok || !w.prepared(id) || finished[op.Target] {
@@ -270,6 +295,8 @@ func runScenario(sc Scenario) Result {
 				return e
 			})
 			r = OpResult{Class: cl, Detail: clip(det), Status: int(st)}
+			r.Good = cl == "ok" && ((op.Commit && st == branch.BranchStatusPhasetwoCommitted) ||
+				(!op.Commit && st == branch.BranchStatusPhasetwoRollbacked))
 		default:
 			r = OpResult{Class: "skipped"}
 		}
@@ -286,6 +313,10 @@ func runScenario(sc Scenario) Result {
 	curMu.Unlock()
 	w.mu.Lock()
 	res.Events = append([]Event{}, w.events...)
+	for i := range res.Events {
+		res.Events[i].IDH = hex.EncodeToString([]byte(res.Events[i].ID))
+		res.Events[i].XidH = hex.EncodeToString([]byte(res.Events[i].Xid))
+	}
 	res.Other = len(w.other)
 	w.mu.Unlock()
 	res.Oracle, res.Legal = oracle(&sc, &res)
@@ -340,6 +371,12 @@ func oracle(sc *Scenario, r *Result) (fails []string, legal bool) {
 	legal = true
 	// (1) per identifier: the commands form START stmt* END PREPARE (COMMIT|ROLLBACK), or a
 	// failure prefix ending in ROLLBACK; nothing the server rejects; never COMMIT without PREPARE
+	endFaults := map[string]int{}
+	for _, ev := range r.Events {
+		if ev.K == "sql" && ev.Cmd == "END" && ev.Res == "fault" {
+			endFaults[ev.ID]++
+		}
+	}
 	state := map[string]int{} // 0 none, 1 active, 2 idle, 3 prepared, 4 committed, 5 rolled back
 	failed := map[string]bool{}
 	order := []string{}
@@ -365,8 +402,12 @@ func oracle(sc *Scenario, r *Result) (fails []string, legal bool) {
 				order = append(order, id)
 			}
 			if ev.Res != "ok" && ev.Res != "fault" {
-				bad("XA %s '%s' rejected by the server (%s): illegal in state %d", ev.Cmd, id, ev.Res, state[id])
-				legal = false
+				// the one tolerated rejection: XA END(success) AND the XA END(fail) after it were both
+				// made to fail, the closing XA ROLLBACK then meets a still active branch (docs/C17.md)
+				if endFaults[id] < 2 {
+					bad("XA %s '%s' rejected by the server (%s): illegal in state %d", ev.Cmd, id, ev.Res, state[id])
+					legal = false
+				}
 				continue
 			}
 			s := state[id]
@@ -415,7 +456,7 @@ func oracle(sc *Scenario, r *Result) (fails []string, legal bool) {
 			if ev.Res == "fault" && s < 3 {
 				failed[id] = true
 			}
-			if !okHere {
+			if !okHere && endFaults[id] < 2 {
 				bad("XA %s '%s' issued in state %d: not a legal XA sequence", ev.Cmd, id, s)
 				legal = false
 			}
@@ -453,7 +494,15 @@ func oracle(sc *Scenario, r *Result) (fails []string, legal bool) {
 			continue
 		}
 		switch op.K {
-		case "auto":
+		case "explicit":
+			id := o.ID
+			if o.Class == "ok" && op.Commit && !(id != "" && prefixPrepared(r.Events, id)) {
+				bad("op %d: explicit transaction committed successfully but its branch '%s' was never ended and prepared", i, id)
+			}
+			if !op.Commit && id != "" && state[id] != 5 && state[id] != 0 {
+				bad("op %d: explicit transaction rolled back but its branch '%s' was not rolled back at the database (state %d)", i, id, state[id])
+			}
+		case "auto", "reuse":
 			// outcome must tell the truth: ok <=> its branch is PREPARED (or later finished by phase two)
 			id := o.ID
 			prepared := id != "" && prefixPrepared(r.Events, id)
